@@ -10,6 +10,22 @@ fn main() {
         std::process::exit(2);
     }
     let prop = args[0].clone();
+    #[cfg(feature = "backends")]
+    if prop == "C20" && args.get(1).map(String::as_str) == Some("--strace-worker") {
+        rcverif::props::c20::strace_worker(args.get(2).expect("dir"));
+        return;
+    }
+    if prop == "C13" && args.get(1).map(String::as_str) == Some("--sanitizer-workload") {
+        let rounds = args.get(2).and_then(|s| s.parse::<u64>().ok()).unwrap_or(1);
+        rcverif::props::c13::sanitizer_workload(rounds);
+        return;
+    }
+    if prop == "C13" && args.get(1).map(String::as_str) == Some("--worker") {
+        install_panic_hook();
+        let n = |i: usize| args.get(i).and_then(|s| s.parse::<u64>().ok()).unwrap_or(0);
+        rcverif::props::c13::worker(n(2), n(3), n(4), n(5));
+        return;
+    }
     let mut tier = match args.get(1).map(String::as_str) {
         Some("thorough") => Tier::Thorough,
         _ => Tier::Quick,
